@@ -86,6 +86,11 @@ func c17Oracle(r *e4Result) (msg string, judged int, laterConn int) {
 	if r.ReaderStuck != "" {
 		return r.ReaderStuck, 0, 0
 	}
+	if r.Stuck {
+		// nothing is delivered to anybody by a client that has stopped: Connect not returning, a client call never
+		// returning, or 3 s of complete silence with accepted work undone on a reachable broker
+		return "the client stopped making progress (no handler can receive anything any more): " + e4Undone(r) + "; " + firstLine(r.Dump), 0, 0
+	}
 	type hcall struct {
 		n          int
 		start, end int64
@@ -233,4 +238,11 @@ func TestVerifC17_Handler(t *testing.T) {
 		})
 		_, _ = judged, later
 	})
+}
+
+func firstLine(s string) string {
+	if i := strings.IndexByte(s, '\n'); i >= 0 {
+		return s[:i]
+	}
+	return s
 }
